@@ -34,8 +34,8 @@ def fake_get_all_zfiles(zdir):
     return out
 
 
-c.prepend_zdir = fake_prepend_zdir
-c.get_all_zfiles = fake_get_all_zfiles
+hx.set(c, "prepend_zdir", fake_prepend_zdir)
+hx.set(c, "get_all_zfiles", fake_get_all_zfiles)
 
 
 class Cfg:
